@@ -153,7 +153,13 @@ class Sym:
 
     def __abs__(self):
         x = lift(self)
-        return Sym(z3.If(x >= 0, x, -x))
+        if CTX.path is None or z3.is_int(x):
+            return Sym(z3.If(x >= 0, x, -x))
+        # |x| as a fresh a >= 0 with a*a == x*x (keeps the defining equations polynomial for the ideal back end)
+        a = CTX.fresh('abs')
+        CTX.path.extra += [a >= 0, a * a == x * x, z3.Or(a == x, a == -x)]
+        CTX.path.defs.append(('abs', a, x))
+        return Sym(a)
 
     def __truediv__(self, o):
         return sym_div(self, o)
@@ -254,6 +260,15 @@ def _assume(cond):
     CTX.path.extra.append(cond)
 
 
+def _canon(t):
+    """Canonical text of a polynomial term (sum of monomials, sorted) -- only used as a memo key, so that the code
+    and the specification share one fresh symbol for the same square root / quotient / absolute value."""
+    try:
+        return z3.simplify(t, som=True, sort_sums=True, mul_to_power=True).sexpr()
+    except z3.Z3Exception:
+        return _simp(t).sexpr()
+
+
 def sym_div(a, b):
     if not is_sym(a) and not is_sym(b):
         return a / b
@@ -267,10 +282,15 @@ def sym_div(a, b):
         if ys.numerator_as_long() == 0:
             raise ZeroDivisionError('float division by zero')
         return Sym(x / ys)
+    key = ('div', _canon(x), _canon(ys))
+    known = CTX.path.lookup_def(key) if CTX.path is not None else None
+    if known is not None:
+        return Sym(known)
     _oblige('division: denominator != 0', y != 0)
     q = CTX.fresh('q')
     _assume(q * y == x)
     CTX.path.defs.append(('div', q, x, y))
+    CTX.path.memo[key] = q
     return Sym(q)
 
 
@@ -281,11 +301,16 @@ def sym_sqrt(a):
     x = lift(a)
     if z3.is_int(x):
         x = z3.ToReal(x)
+    key = ('sqrt', _canon(x))
+    known = CTX.path.lookup_def(key) if CTX.path is not None else None
+    if known is not None:
+        return Sym(known)
     _oblige('sqrt: radicand >= 0', x >= 0)
     s = CTX.fresh('sqrt')
     _assume(s >= 0)
     _assume(s * s == x)
     CTX.path.defs.append(('sqrt', s, x))
+    CTX.path.memo[key] = s
     return Sym(s)
 
 
